@@ -114,7 +114,7 @@ def gen(rng, tier):
 CONFIG = Config()
 CONFIG.pid = "C16"
 CONFIG.props_module = "KsiVerif.Props.C16"
-CONFIG.required_theorems = ["inv_init", "addLeaf_inv", "close_inclusion", "signerPrep_sound", "reset_eq_new", "heightCheck_ok_iff"]
+CONFIG.required_theorems = ["inv_init", "addLeaf_inv", "close_inclusion", "open_forest_inclusion", "signerPrep_sound", "reset_eq_new", "heightCheck_ok_iff"]
 CONFIG.translators = [tables.gen_hashalgs]
 CONFIG.engines = [Engine("c16", ["exec_c16.c"], "drv_c16", gen)]
 CONFIG.rule = ("KSI_TreeBuilder (addDataHash/addMetaData/close) on uniform-level sequences of every length 1..64 (thorough ..200) with "
